@@ -3,6 +3,7 @@ package hamt
 import (
 	"context"
 	"fmt"
+	"sync"
 
 	bitfield "github.com/ipfs/go-bitfield"
 	"github.com/ipfs/go-unixfsnode/data"
@@ -31,6 +32,7 @@ type _UnixFSHAMTShard struct {
 	data         data.UnixFSData
 	lsys         *ipld.LinkSystem
 	bitfield     bitfield.Bitfield
+	mu           sync.Mutex // guards shardCache and cachedLength
 	shardCache   map[ipld.Link]*_UnixFSHAMTShard
 	cachedLength int64
 }
@@ -148,11 +150,15 @@ func AttemptHAMTShardFromNode(ctx context.Context, nd ipld.Node, lsys *ipld.Link
 }
 
 func (n UnixFSHAMTShard) loadChild(pbLink dagpb.PBLink) (UnixFSHAMTShard, error) {
-	cached, ok := n.shardCache[pbLink.FieldHash().Link()]
+	lnk := pbLink.FieldHash().Link()
+	n.mu.Lock()
+	cached, ok := n.shardCache[lnk]
+	n.mu.Unlock()
 	if ok {
 		return cached, nil
 	}
-	nd, err := n.lsys.Load(ipld.LinkContext{Ctx: n.ctx}, pbLink.FieldHash().Link(), dagpb.Type.PBNode)
+	// the lock is not held across the load
+	nd, err := n.lsys.Load(ipld.LinkContext{Ctx: n.ctx}, lnk, dagpb.Type.PBNode)
 	if err != nil {
 		return nil, err
 	}
@@ -160,7 +166,14 @@ func (n UnixFSHAMTShard) loadChild(pbLink dagpb.PBLink) (UnixFSHAMTShard, error)
 	if err != nil {
 		return nil, err
 	}
-	n.shardCache[pbLink.FieldHash().Link()] = und
+	n.mu.Lock()
+	if cached, ok := n.shardCache[lnk]; ok {
+		// another goroutine loaded the same child meanwhile: keep one instance
+		und = cached
+	} else {
+		n.shardCache[lnk] = und
+	}
+	n.mu.Unlock()
 	return und, nil
 }
 
@@ -269,8 +282,11 @@ func (n UnixFSHAMTShard) ListIterator() ipld.ListIterator {
 // Length returns the length of a list, or the number of entries in a map,
 // or -1 if the node is not of list nor map kind.
 func (n UnixFSHAMTShard) length() (int64, error) {
-	if n.cachedLength != -1 {
-		return n.cachedLength, nil
+	n.mu.Lock()
+	cachedLength := n.cachedLength
+	n.mu.Unlock()
+	if cachedLength != -1 {
+		return cachedLength, nil
 	}
 	maxPadLen := maxPadLength(n.data)
 	total := int64(0)
@@ -295,7 +311,9 @@ func (n UnixFSHAMTShard) length() (int64, error) {
 			total += cl
 		}
 	}
+	n.mu.Lock()
 	n.cachedLength = total
+	n.mu.Unlock()
 	return total, nil
 }
 
